@@ -12,6 +12,8 @@
 //   CONNECT | DISCONNECT | STOP | RETRY | DESTROY            client API on the loop thread
 //   XCF XCE | XSF XSE | XDF XDR | XYR XYD                    foreign connect / stop / disconnect / ~TcpClient in two halves
 //   CR <errno> | EVW <so_error> <self 0|1> | EVE | TF | RUN | RUN1 | DOWN | HOLD | REL
+//   EVWY                                                     POLLOUT with SO_ERROR 0; a foreign thread runs ~TcpClient while the loop thread is
+//                                                            inside TcpClient::newConnection, just before it takes mutex_
 // end
 // One line per op:
 //   ok|rejected t=<virtual ms> ev=.. arm=.. k=<state>/<connect_>/<channel sock:registered>/<retryDelayMs_> tm=<ms until due,..>
@@ -88,6 +90,11 @@ static thread_local int t_locks = 0;
 static thread_local bool t_in_wrap = false;
 static sem_t g_reached;
 static thread_local sem_t* t_release = NULL;
+// EVWY: when the loop thread is about to take this mutex (TcpClient::mutex_, inside TcpClient::newConnection called from
+// Connector::handleWrite), a foreign thread runs `delete client` to completion first (forced schedule of F-13)
+static pthread_mutex_t* g_race_mutex = NULL;
+static TcpClient* g_race_client = NULL;
+static pthread_t g_loop_thread;
 
 static void ev(const string& s) { g_events.push_back(s); }
 
@@ -183,6 +190,14 @@ extern "C" int __wrap_gettimeofday(struct timeval* tv, void* tz)
 
 extern "C" int __wrap_pthread_mutex_lock(pthread_mutex_t* m)
 {
+  if (g_race_mutex != NULL && m == g_race_mutex && pthread_equal(pthread_self(), g_loop_thread))
+  {
+    g_race_mutex = NULL;
+    TcpClient* c = g_race_client;
+    std::thread t([c]() { delete c; });
+    t.join();
+    return 0;      // the mutex is destroyed and freed: what an unchecked pthread_mutex_lock amounts to; the caller goes on
+  }
   if (t_stall_at > 0 && ++t_locks == t_stall_at)
   {
     sem_post(&g_reached);
@@ -235,6 +250,7 @@ static int runCase(const std::vector<string>& lines)
 {
   Logger::setOutput(nullOutput);
   sem_init(&g_reached, 0, 0);
+  g_loop_thread = pthread_self();
   EventLoop loop;
   InetAddress server("127.0.0.1", 2000);
   g_active = true;
@@ -337,6 +353,22 @@ static int runCase(const std::vector<string>& lines)
         kraw->channel_->handleEvent(Timestamp::now());
         g_soerr = 0;
         g_self = false;
+      }
+      else rejected = true;
+    }
+    else if (k == "EVWY")
+    {
+      if (apiOk && foreign.empty() && kraw && kraw->channel_ && kraw->channel_->addedToLoop_ &&
+          kraw->state_ == Connector::kConnecting && kraw->connect_)
+      {
+        g_soerr = 0;
+        g_self = false;
+        g_race_client = client;
+        g_race_mutex = client->mutex_.getPthreadMutex();
+        client = NULL;                   // it is gone when handleEvent returns (if it returns)
+        kraw->channel_->set_revents(POLLOUT);
+        kraw->channel_->handleEvent(Timestamp::now());
+        g_race_mutex = NULL;
       }
       else rejected = true;
     }
@@ -546,9 +578,11 @@ int main()
       size_t a = err.find("Assertion `");
       size_t s = err.find("ERROR: AddressSanitizer: ");
       size_t u = err.find("runtime error: ");
+      size_t mc = err.find(": Unexpected error: ");
       if (a != string::npos) { size_t e = err.find('\'', a + 11); why = "assert:" + err.substr(a + 11, e - a - 11); }
       else if (s != string::npos) { size_t e = err.find_first_of(" \n", s + 25); why = "asan:" + err.substr(s + 25, e - s - 25); }
       else if (u != string::npos) { size_t e = err.find('\n', u); why = "ubsan:" + err.substr(u + 15, e - u - 15); }
+      else if (mc != string::npos) { size_t b = err.rfind(' ', mc - 1); why = "mcheck:" + err.substr(b + 1, mc - b - 1); }
       else if (WIFSIGNALED(status)) why = "signal:" + std::to_string(WTERMSIG(status));
       string fn;
       // where: first muduo frame named in the report (assert: the function in the message)
